@@ -1,0 +1,17 @@
+// +build verif
+
+package log
+
+// Contracts for the verifier in /verif (comment-only).
+// Logging changes nothing the program can observe, except that Panic*/Fatal* do not return.
+
+/*@
+func Logger.Panic
+  noreturn
+func Logger.Panicf
+  noreturn
+func Logger.Fatal
+  noreturn
+func Logger.Fatalf
+  noreturn
+@*/
